@@ -409,7 +409,7 @@ func caseCoq(c *Case) string {
 	if c.Alu == "cdna3" {
 		arch = "CDNA3"
 	}
-	inst := fmt.Sprintf("(mkInst F_%s %d %s %s %s %s %d %d)", c.Fmt, c.Op, zi(c.Src0), zi(c.Src1), zi(c.Src2), zi(c.Dst), c.Simm, c.Lit)
+	inst := fmt.Sprintf("(mkInst F_%s %d %s %s %s %s %s %d)", c.Fmt, c.Op, zi(c.Src0), zi(c.Src1), zi(c.Src2), zi(c.Dst), zi(c.Simm), c.Lit)
 	crashed := c.Panic != ""
 	eff := c.MemAcc > 0 || c.LDSChg
 	return fmt.Sprintf("mkCase %s %s %s %s %s %s", arch, inst, pstateCoq(c.Pre, c.Probe, c.MemPre, c.LdsPre), vh.CoqBool(crashed), vh.CoqBool(eff), pstateCoq(c.Post, c.After, c.MemPost, c.LdsPost))
